@@ -17,6 +17,9 @@ EXTENDS Integers, Sequences, FiniteSets, TLC
 
 CONSTANTS MaxV, Objs, Slots
 Ids == 1..MaxV
+\* "many holders": one value stored in BulkN further places (BulkArrays arrays of 10000 slots) - more than a 16-bit count holds
+BulkN == 70000
+BulkArrays == 8     \* the holder array itself + 7 arrays of 10000 slots
 
 VARIABLES kind,    \* Ids -> "none" (never allocated / released) | "arr" | "map" | "fp"
           child,   \* Ids -> 0 | Ids
@@ -24,13 +27,14 @@ VARIABLES kind,    \* Ids -> "none" (never allocated / released) | "arr" | "map"
           slot,    \* Objs \X Slots -> 0 | Ids
           couts,   \* Objs -> sequence of (0 | Ids): arguments of the pending call_outs, oldest first
           alive,   \* Objs -> BOOLEAN
+          bulk,    \* Objs -> <<>> or <<v>>: the object keeps BulkN references to value v (0 | Ids) in its holder arrays
           inp,     \* <<>> (nothing pending) or <<owner, value>>: the user's pending input_to, its callback in object owner holding value (0 | Ids)
           conn     \* the user is connected
-vars == <<kind, child, rc, slot, couts, alive, inp, conn>>
+vars == <<kind, child, rc, slot, couts, alive, bulk, inp, conn>>
 
 Init == /\ kind = [v \in Ids |-> "none"] /\ child = [v \in Ids |-> 0] /\ rc = [v \in Ids |-> 0]
         /\ slot = [x \in Objs \X Slots |-> 0] /\ couts = [o \in Objs |-> <<>>] /\ alive = [o \in Objs |-> TRUE]
-        /\ inp = <<>> /\ conn = TRUE
+        /\ inp = <<>> /\ conn = TRUE /\ bulk = [o \in Objs |-> <<>>]
 
 Fresh == IF \E v \in Ids : kind[v] = "none" /\ rc[v] = 0 THEN CHOOSE v \in Ids : kind[v] = "none" /\ \A w \in Ids : (kind[w] = "none") => v <= w ELSE 0
 
@@ -44,6 +48,9 @@ Inc(h, v) == IF v = 0 THEN h ELSE [h EXCEPT !.rc[v] = @ + 1]
 H == [kind |-> kind, child |-> child, rc |-> rc]
 SetH(h) == kind' = h.kind /\ child' = h.child /\ rc' = h.rc
 
+\* n references at once
+IncN(h, v, n) == IF v = 0 THEN h ELSE [h EXCEPT !.rc[v] = @ + n]
+DecN(h, v, n) == IF v = 0 THEN h ELSE IF h.rc[v] > n THEN [h EXCEPT !.rc[v] = @ - n] ELSE Dec([h EXCEPT !.rc[v] = 1], v)
 \* o.g[i] = v   (v already counted for the new holder by the caller where needed)
 Assign(h, o, i, v) == Dec(Inc(h, v), slot[<<o, i>>])
 
@@ -52,21 +59,21 @@ NewVal(o, i, k) ==          \* g[i] = ({ 0, 0 })  /  ([ "k" : 0 ])
   /\ LET v == Fresh
          h1 == [H EXCEPT !.kind[v] = k, !.child[v] = 0, !.rc[v] = 0]
      IN SetH(Assign(h1, o, i, v)) /\ slot' = [slot EXCEPT ![<<o, i>>] = v]
-  /\ UNCHANGED <<couts, alive, inp, conn>>
+  /\ UNCHANGED <<couts, alive, bulk, inp, conn>>
 Copy(o, i, p, j) ==         \* p.g[j] = o.g[i]
   /\ alive[o] /\ alive[p]
   /\ SetH(Assign(H, p, j, slot[<<o, i>>])) /\ slot' = [slot EXCEPT ![<<p, j>>] = slot[<<o, i>>]]
-  /\ UNCHANGED <<couts, alive, inp, conn>>
+  /\ UNCHANGED <<couts, alive, bulk, inp, conn>>
 Clear(o, i) ==              \* g[i] = 0
   /\ alive[o] /\ SetH(Dec(H, slot[<<o, i>>])) /\ slot' = [slot EXCEPT ![<<o, i>>] = 0]
-  /\ UNCHANGED <<couts, alive, inp, conn>>
+  /\ UNCHANGED <<couts, alive, bulk, inp, conn>>
 Put(o, i, p, j) ==          \* p.g[j][0] = o.g[i]   /   p.g[j]["k"] = o.g[i]
   /\ alive[o] /\ alive[p] /\ slot[<<p, j>>] # 0 /\ kind[slot[<<p, j>>]] \in {"arr", "map"}
   /\ LET c == slot[<<p, j>>]  v == slot[<<o, i>>]
          h1 == Inc(H, v)
          h2 == [h1 EXCEPT !.child[c] = v]
      IN SetH(Dec(h2, child[c]))
-  /\ UNCHANGED <<slot, couts, alive, inp, conn>>
+  /\ UNCHANGED <<slot, couts, alive, bulk, inp, conn>>
 PutR(o, i, p, j) ==         \* p.g[j][0..0] = ({ o.g[i] })  (range assignment: same effect as Put, on arrays only)
   /\ slot[<<p, j>>] # 0 /\ kind[slot[<<p, j>>]] = "arr" /\ Put(o, i, p, j)
 NewFp(o, i, j) ==           \* g[j] = (: cb, g[i] :)
@@ -74,27 +81,34 @@ NewFp(o, i, j) ==           \* g[j] = (: cb, g[i] :)
   /\ LET v == Fresh  a == slot[<<o, i>>]
          h1 == Inc([H EXCEPT !.kind[v] = "fp", !.child[v] = a, !.rc[v] = 0], a)
      IN SetH(Assign(h1, o, j, v)) /\ slot' = [slot EXCEPT ![<<o, j>>] = v]
-  /\ UNCHANGED <<couts, alive, inp, conn>>
+  /\ UNCHANGED <<couts, alive, bulk, inp, conn>>
 CallOut(o, i) ==            \* call_out("cb", far future, g[i])
   /\ alive[o] /\ Len(couts[o]) < 2
   /\ SetH(Inc(H, slot[<<o, i>>])) /\ couts' = [couts EXCEPT ![o] = Append(@, slot[<<o, i>>])]
-  /\ UNCHANGED <<slot, alive, inp, conn>>
+  /\ UNCHANGED <<slot, alive, bulk, inp, conn>>
 RmCallOut(o, k) ==          \* remove_call_out("cb") or remove_call_out(handle): one of the pending ones (which one is the call_out queue's business, see C10)
   /\ alive[o] /\ k \in 1..Len(couts[o])
   /\ SetH(Dec(H, couts[o][k])) /\ couts' = [couts EXCEPT ![o] = SubSeq(@, 1, k - 1) \o SubSeq(@, k + 1, Len(@))]
-  /\ UNCHANGED <<slot, alive, inp, conn>>
+  /\ UNCHANGED <<slot, alive, bulk, inp, conn>>
+\* o stores g[i] in BulkN further places / drops them again
+Many(o, i) == /\ alive[o] /\ bulk[o] = <<>>
+              /\ SetH(IncN(H, slot[<<o, i>>], BulkN)) /\ bulk' = [bulk EXCEPT ![o] = <<slot[<<o, i>>]>>]
+              /\ UNCHANGED <<slot, couts, alive, inp, conn>>
+Unmany(o) == /\ alive[o] /\ bulk[o] # <<>>
+             /\ SetH(DecN(H, bulk[o][1], BulkN)) /\ bulk' = [bulk EXCEPT ![o] = <<>>]
+             /\ UNCHANGED <<slot, couts, alive, inp, conn>>
 \* the connected user's input_to: input_to("cb", 0, g[i]) (carry-over argument) or input_to((: cb, g[i] :)) (bound argument).
 \* Only the first of several calls takes effect.
 InputTo(o, i) ==
   /\ alive[o] /\ conn
   /\ IF inp = <<>> THEN SetH(Inc(H, slot[<<o, i>>])) /\ inp' = <<o, slot[<<o, i>>]>>
      ELSE UNCHANGED <<kind, child, rc, inp>>
-  /\ UNCHANGED <<slot, couts, alive, conn>>
+  /\ UNCHANGED <<slot, couts, alive, bulk, conn>>
 \* the user's next line goes to the callback, which returns, raises an error, or cannot run because its object is gone:
 \* in every case the pending input_to and what it held are released
-InputLine == /\ conn /\ inp # <<>> /\ SetH(Dec(H, inp[2])) /\ inp' = <<>> /\ UNCHANGED <<slot, couts, alive, conn>>
+InputLine == /\ conn /\ inp # <<>> /\ SetH(Dec(H, inp[2])) /\ inp' = <<>> /\ UNCHANGED <<slot, couts, alive, bulk, conn>>
 \* the user disconnects: a pending input_to is dropped
-Drop == /\ conn /\ conn' = FALSE /\ inp' = <<>> /\ SetH(IF inp = <<>> THEN H ELSE Dec(H, inp[2])) /\ UNCHANGED <<slot, couts, alive>>
+Drop == /\ conn /\ conn' = FALSE /\ inp' = <<>> /\ SetH(IF inp = <<>> THEN H ELSE Dec(H, inp[2])) /\ UNCHANGED <<slot, couts, alive, bulk>>
 \* an evaluation that pushes references to g[i] (arguments, a temporary array, an efun callback) and then fails:
 \* caught or not, every temporary is dropped again
 Err(o, i) == alive[o] /\ UNCHANGED vars
@@ -103,25 +117,27 @@ DecAll(h, s) == IF s = <<>> THEN h ELSE DecAll(Dec(h, Head(s)), Tail(s))
 SlotSeq(o) == LET RECURSIVE F(_) F(S) == IF S = {} THEN <<>> ELSE LET x == CHOOSE x \in S : TRUE IN <<slot[<<o, x>>]>> \o F(S \ {x}) IN F(Slots)
 Dest(o) ==                  \* destruct(o) + the deferred clean-up: its variables are released; its pending call_outs
   /\ alive[o]               \* stay queued (they will not run) and keep their arguments until their time has come
-  /\ SetH(DecAll(H, SlotSeq(o)))
+  /\ SetH(DecAll(IF bulk[o] = <<>> THEN H ELSE DecN(H, bulk[o][1], BulkN), SlotSeq(o)))
   /\ slot' = [x \in Objs \X Slots |-> IF x[1] = o THEN 0 ELSE slot[x]]
+  /\ bulk' = [bulk EXCEPT ![o] = <<>>]
   /\ alive' = [alive EXCEPT ![o] = FALSE] /\ UNCHANGED <<couts, inp, conn>>
 \* time passes beyond every pending call_out: each one runs (a no-op callback) or is dropped, its arguments are released
 RECURSIVE AllCouts(_)
 AllCouts(O) == IF O = {} THEN <<>> ELSE LET o == CHOOSE o \in O : TRUE IN couts[o] \o AllCouts(O \ {o})
-Expire == /\ SetH(DecAll(H, AllCouts(Objs))) /\ couts' = [o \in Objs |-> <<>>] /\ UNCHANGED <<slot, alive, inp, conn>>
+Expire == /\ SetH(DecAll(H, AllCouts(Objs))) /\ couts' = [o \in Objs |-> <<>>] /\ UNCHANGED <<slot, alive, bulk, inp, conn>>
 
 \* ---- what the driver's counters must show
 NArr  == Cardinality({v \in Ids : kind[v] = "arr"})
 NMap  == Cardinality({v \in Ids : kind[v] = "map"})
 NFp   == Cardinality({v \in Ids : kind[v] = "fp"})
 NCout == LET RECURSIVE S(_) S(O) == IF O = {} THEN 0 ELSE LET o == CHOOSE o \in O : TRUE IN Len(couts[o]) + S(O \ {o}) IN S(Objs)
-StatArrays == NArr + NFp + NCout + (IF inp = <<>> THEN 0 ELSE 1)
+StatArrays == NArr + NFp + NCout + (IF inp = <<>> THEN 0 ELSE 1) + BulkArrays * Cardinality({o \in Objs : bulk[o] # <<>>})
 StatMaps   == NMap
 
 \* ---- consistency of the model itself
 Holders(v) == Cardinality({x \in Objs \X Slots : slot[x] = v}) + Cardinality({w \in Ids : kind[w] # "none" /\ child[w] = v})
               + (IF inp # <<>> /\ inp[2] = v THEN 1 ELSE 0)
+              + BulkN * Cardinality({o \in Objs : bulk[o] = <<v>>})
               + LET RECURSIVE C(_) C(O) == IF O = {} THEN 0 ELSE LET o == CHOOSE o \in O : TRUE IN Cardinality({k \in 1..Len(couts[o]) : couts[o][k] = v}) + C(O \ {o}) IN C(Objs)
 CountsExact == \A v \in Ids : rc[v] = Holders(v) /\ (kind[v] = "none" <=> rc[v] = 0)
 NothingDangling == /\ \A x \in Objs \X Slots : slot[x] # 0 => kind[slot[x]] # "none"
@@ -130,6 +146,6 @@ NothingDangling == /\ \A x \in Objs \X Slots : slot[x] # 0 => kind[slot[x]] # "n
 RECURSIVE Reach(_, _)
 Reach(S, n) == IF n = 0 THEN S ELSE Reach(S \cup ({child[v] : v \in S} \ {0}), n - 1)
 Roots == {slot[x] : x \in Objs \X Slots} \cup UNION {{couts[o][k] : k \in 1..Len(couts[o])} : o \in Objs}
-         \cup (IF inp = <<>> THEN {} ELSE {inp[2]})
+         \cup (IF inp = <<>> THEN {} ELSE {inp[2]}) \cup UNION {IF bulk[o] = <<>> THEN {} ELSE {bulk[o][1]} : o \in Objs}
 Garbage == {v \in Ids : kind[v] # "none"} \ Reach(Roots \ {0}, MaxV)
 =============================================================================
